@@ -25,9 +25,11 @@ def integrate(m, steps=None, dt=0.025, solver="bwd_euler", vsolver="jaxley.stone
         kw["t_max"] = tmax_for(steps, dt)
     if all_states is not None:
         kw["all_states"] = all_states
-    p = params if params is not None else []
+    p = params  # None: `params` is left at integrate's own default (as users do), not replaced by a fresh list
 
     def f(p, ps, ds, dc):
+        if p is None:
+            return jx.integrate(m, param_state=ps, data_stimuli=ds, data_clamps=dc, **kw)
         return jx.integrate(m, p, param_state=ps, data_stimuli=ds, data_clamps=dc, **kw)
 
     with quiet():
